@@ -15,7 +15,7 @@ CHECK = {
                   "about 5e5 executions); it is reported as state-pruned. The exhaustive enumeration of all integer splits of the "
                   "packets over the sources (DistributedPhotonSource) is a separate part. "
                   "A ledger fed by hooks checks on every execution that each launched packet terminates exactly once, "
-                  "requested = terminated = done counter, per-task accounting matches, that a subgrid is traversed by one task at a time, "
+                  "requested = terminated = done counter, no task reports more packets done than it terminated, that a subgrid is traversed by one task at a time, "
                   "and that no buffer, task, queue entry, subgrid or continuous buffer is left behind; deadlock, livelock and horizon overruns are violations. "
                   "Lost/duplicated packets and stale tasks are ordering bugs between threads: bounded-exhaustive schedule "
                   "enumeration on the real code is the level that can reach them.",
